@@ -717,6 +717,38 @@ fn unique_values(cfg: &Cfg, rng: &mut Rng) {
             got
         }));
     }
+    // meanwhile another clone keeps changing the header-flag setting (a caller-side operation that shares the
+    // endpoint's state with the calls): every call must still complete
+    let stop = Arc::new(std::sync::atomic::AtomicBool::new(false));
+    let toggler = {
+        let f3 = f.clone();
+        let st = stop.clone();
+        std::thread::spawn(move || {
+            let mut k = 0u32;
+            while !st.load(std::sync::atomic::Ordering::SeqCst) {
+                f3.set_hdr_flags(if k % 2 == 0 { vhost::vhost_user::message::VhostUserHeaderFlag::NEED_REPLY } else { vhost::vhost_user::message::VhostUserHeaderFlag::empty() });
+                k += 1;
+                if k % 64 == 0 {
+                    std::thread::yield_now();
+                }
+            }
+        })
+    };
+    let finished = sys::wait_until(120_000, || hs.iter().all(|h| h.is_finished()));
+    stop.store(true, std::sync::atomic::Ordering::SeqCst);
+    if !finished {
+        // callers that neither return nor move: all of them (and the toggler) parked on a lock
+        let me = sys::gettid();
+        let parked = sys::threads().iter().filter(|t| t.0 != me && sys::parked_in(t.0, &[sys::SYS_FUTEX])).count();
+        report::eval(1);
+        if parked >= threads as usize {
+            report::violation("C10:fe:unique-values:callers-deadlocked", jo! {"threads" => threads, "threads_parked_on_a_lock" => parked, "also_running" => "a clone toggling set_hdr_flags()"}, cfg.replay("unique"));
+        } else {
+            report::inconclusive("unique-values: callers did not finish");
+        }
+        std::process::exit(report::finish());
+    }
+    let _ = toggler.join();
     let mut all: Vec<u64> = Vec::new();
     let mut errors: Vec<String> = Vec::new();
     for h in hs {
